@@ -99,13 +99,28 @@ Proof. split; vm_compute; reflexivity. Qed.
 Theorem lut_lookup_inside_read_footprint :
   forall x m r v i,
     lut_index r = Some i -> 0 <= i <= 7 ->
+    (prec_elem_ofm (r0 r cmd0_NPU_SET_OFM_PRECISION) =? 4) = false ->
     (if ofm_signed r then -128 <= v <= 127 else 0 <= v <= 255) ->
     exists a, activate x m r v = rd8 (get_bank m SHRAM) a /\
               x_lut_addr x + i * 256 <= a < x_lut_addr x + i * 256 + lut_read_bytes 1 i.
 Proof.
-  intros x m r v i Hl Hi Hv. exists (lut_read_addr (x_lut_addr x) i (ofm_signed r) v). split.
-  - apply activate_reads_lut_read_addr. exact Hl.
+  intros x m r v i Hl Hi H8 Hv. exists (lut_read_addr (x_lut_addr x) i (ofm_signed r) v). split.
+  - apply activate_reads_lut_read_addr; assumption.
   - apply lut_read_inside_footprint; assumption.
+Qed.
+
+(* the same for the 32-bit table of the softmax: the four bytes of the entry lie inside the 1024-byte footprint *)
+Theorem lut32_lookup_inside_read_footprint :
+  forall x m r v i,
+    lut_index r = Some i -> 0 <= i <= 4 ->
+    (prec_elem_ofm (r0 r cmd0_NPU_SET_OFM_PRECISION) =? 4) = true ->
+    -128 <= v <= 127 ->
+    exists a, activate x m r v = to_signed 32 (rd_le (get_bank m SHRAM) a 4) /\
+              x_lut_addr x + i * 256 <= a /\ a + 4 <= x_lut_addr x + i * 256 + lut_read_bytes 4 i.
+Proof.
+  intros x m r v i Hl Hi H32 Hv. exists (x_lut_addr x + i * 256 + 4 * (v + 128)). split.
+  - unfold activate. rewrite Hl, H32. reflexivity.
+  - apply lut32_read_inside_footprint; assumption.
 Qed.
 
 (* before the repair c949748 the multiplier 2^31 was kept where the reference renormalises: the TFL mode
@@ -143,4 +158,5 @@ Print Assumptions elementwise_addsub_scaled_a_is_reference.
 Print Assumptions elementwise_addsub_scaled_b_is_reference.
 Print Assumptions elementwise_mul_is_reference.
 Print Assumptions lut_lookup_inside_read_footprint.
+Print Assumptions lut32_lookup_inside_read_footprint.
 Print Assumptions clamp_in_range.
